@@ -196,6 +196,10 @@ class RecordingCrypto(object):
 
     def create_symmetric_key(self, algorithm, length):
         self._call("create_symmetric_key", (algorithm, length), {})
+        # like the real backend: an unusable length is an InvalidField, never a short value
+        if length <= 0 or length % 8 != 0:
+            from kmip.core import exceptions as kex
+            raise kex.InvalidField("The cryptographic length ({0}) is not valid".format(length))
         return {"value": b"\x11" * (length // 8), "format": enums.KeyFormatType.RAW}
 
     def create_asymmetric_key_pair(self, algorithm, length):
